@@ -14,7 +14,7 @@ import (
 
 func init() {
 	register("C17", false,
-		"Structural necessary conditions decided from source: (C17-race) for every goroutine started in package fbb, each variable it shares with its spawner (closure bindings) is examined: the accesses made inside the goroutine (through nested closures too) against the accesses the spawner - and its other closures - can make after the go statement, field-granular for structs; a pair on the same storage with at least one write is a data race unless the storage is a channel, a sync or sync/atomic value, a time.Ticker/Timer, or both sides hold a common mutex; method calls on a shared object count as writes unless the method is in the read-only table (bytes.Buffer.Len etc.) - and a read-only call still conflicts with a write on the other side; this covers every schedule at once; (C17-done) in each status-reporting goroutine the report with Done set is issued only on the path taken when the done-channel is closed (the select arm of that channel, the not-ok edge of a receive from it, or the end of a range over it), that path returns without another report, every other report leaves Done unset, and the spawner closes that channel exactly once, by a deferred call (a closure, or a plain defer close(ch) of a channel variable assigned once) registered right after the go statement, on every exit; reports issued through helpers or local closures are followed with the Done value bound to the argument of the call, and variables captured by a closure that the goroutine runs through a variable of the spawner count as shared with the goroutine for C17-race. NOT decided: the numeric range of the reported byte counts; races inside the StatusUpdater or the transport supplied by the application.",
+		"Structural necessary conditions decided from source: (C17-race) for every goroutine started in package fbb, each variable it shares with its spawner (closure bindings) is examined: the accesses made inside the goroutine (through nested closures too) against the accesses the spawner - and its other closures - can make after the go statement, field-granular for structs; a pair on the same storage with at least one write is a data race unless the storage is a channel, a sync or sync/atomic value, a time.Ticker/Timer, or both sides hold a common mutex; method calls on a shared object count as writes unless the method is in the read-only table (bytes.Buffer.Len etc.) - and a read-only call still conflicts with a write on the other side; this covers every schedule at once; (C17-done) in each status-reporting goroutine the report with Done set is issued only on the path taken when the done-channel is closed (the select arm of that channel, the not-ok edge of a receive from it, or the end of a range over it), that path returns without another report, every other report leaves Done unset, and the spawner closes that channel exactly once, by a deferred call (a closure, or a plain defer close(ch) of a channel variable assigned once) registered right after the go statement, on every exit; reports issued through helpers or local closures are followed with the Done value bound to the argument of the call, and variables captured by a closure that the goroutine runs through a variable of the spawner count as shared with the goroutine for C17-race; a goroutine started on a module function or method (go x.run(args)) is treated like a closure: what is shared are the arguments and what the pointer fields of a struct built for the goroutine were set to, parameters are bound to the arguments of the go statement, channels are identified by value; a computed Done (= !ok of the receive) must be followed by no further report on any path the code can take once ok is false (branches on ok, on constants and on loop variables set from ok are decided, all others followed both ways). NOT decided: the numeric range of the reported byte counts; races inside the StatusUpdater or the transport supplied by the application.",
 		checkC17)
 }
 
@@ -160,12 +160,12 @@ func checkC17(c *Ctx, r *Report) {
 	}
 	r.Rule("C17-race", 6, "no conflicting access to state shared with a goroutine")
 	r.Rule("C17-done", 4, "exactly one final report, tied to the done channel")
-	nGo := raceRule(c, r, "C17-race", pkg, func(fn *ssa.Function, instr ssa.Instruction, g *ssa.Go, mc *ssa.MakeClosure) {
+	nGo := raceRule(c, r, "C17-race", pkg, func(fn *ssa.Function, instr ssa.Instruction, g *ssa.Go, gf *ssa.Function, chanName func(ssa.Value) string) {
 		// C17-done for status reporters
-		doneRule(c, r, fn, instr, g, mc)
+		doneRule(c, r, fn, instr, g, gf, chanName)
 	})
 	if nGo < 2 {
-		r.Fail("C17-race", "found %d go statements with closures in package fbb, expected the two status reporters", nGo)
+		r.Fail("C17-race", "found %d go statements on closures or module functions in package fbb, expected the two status reporters", nGo)
 	}
 	sessionFieldRule(c, r, "C17-owner")
 	c17Extra4(c, r)
@@ -174,7 +174,11 @@ func checkC17(c *Ctx, r *Report) {
 
 // raceRule (E4): for every go statement with a closure in pkg, the variables it captures are
 // compared access by access with what the spawner can still do after the go statement.
-func raceRule(c *Ctx, r *Report, rule, pkg string, each func(fn *ssa.Function, instr ssa.Instruction, g *ssa.Go, mc *ssa.MakeClosure)) int {
+//
+// each is called per go statement with the function the goroutine runs and a function that names
+// a channel used in it in the spawner's terms. A go statement on a module function or method
+// (`go w.run(tick, done)`) is handled by h4RaceStatic (ip_h4.go): the arguments are what is shared.
+func raceRule(c *Ctx, r *Report, rule, pkg string, each func(fn *ssa.Function, instr ssa.Instruction, g *ssa.Go, gf *ssa.Function, chanName func(ssa.Value) string)) int {
 	nGo := 0
 	for _, fn := range c.SrcFuncs(pkg) {
 		eachInstr(fn, func(_ *ssa.BasicBlock, _ int, instr ssa.Instruction) {
@@ -184,6 +188,13 @@ func raceRule(c *Ctx, r *Report, rule, pkg string, each func(fn *ssa.Function, i
 			}
 			mc, ok := g.Call.Value.(*ssa.MakeClosure)
 			if !ok {
+				if gf := c.h4GoTarget(g); gf != nil && pkgRel(gf) == pkg {
+					nGo++
+					c.h4RaceStatic(r, rule, fn, instr, g, gf)
+					if each != nil {
+						each(fn, instr, g, gf, c.h4ChanNamer(g, gf))
+					}
+				}
 				return
 			}
 			nGo++
@@ -266,15 +277,14 @@ func raceRule(c *Ctx, r *Report, rule, pkg string, each func(fn *ssa.Function, i
 				examine(name, name, b, cf, cf.FreeVars[i], nil, 0)
 			}
 			if each != nil {
-				each(fn, instr, g, mc)
+				each(fn, instr, g, cf, h4ChanNameLocal)
 			}
 		})
 	}
 	return nGo
 }
 
-func doneRule(c *Ctx, r *Report, fn *ssa.Function, goInstr ssa.Instruction, g *ssa.Go, mc *ssa.MakeClosure) {
-	cf := mc.Fn.(*ssa.Function)
+func doneRule(c *Ctx, r *Report, fn *ssa.Function, goInstr ssa.Instruction, g *ssa.Go, cf *ssa.Function, chanName func(ssa.Value) string) {
 	// report events of the goroutine: UpdateStatus called directly, or through a helper / local
 	// closure with the Done value bound to the call's arguments (ip_g9.go)
 	reports := c.g9Reports(cf, 0)
@@ -309,10 +319,19 @@ func doneRule(c *Ctx, r *Report, fn *ssa.Function, goInstr ssa.Instruction, g *s
 			closed[ch] = true
 			deferAt = in
 		}
+		// `defer close(<the channel value itself>)`: no variable in between that could be re-assigned
+		if ch := c.h4DeferredCloseValue(d); ch != "" {
+			closed[ch] = true
+			deferAt = in
+		}
 	})
 	eachInstrDeep(fn, func(_ *ssa.Function, in ssa.Instruction) {
 		if call, ok := in.(ssa.CallInstruction); ok && callName(call.Common()) == "builtin.close" {
-			nClose[strings.TrimPrefix(pathOf(call.Common().Args[0]), "&")]++
+			if ch := c.h4SpawnerChan(call.Common().Args[0], 0); ch != "" {
+				nClose[ch]++ // the channel value itself, or a once-set field holding it (ip_h4.go)
+			} else {
+				nClose[strings.TrimPrefix(pathOf(call.Common().Args[0]), "&")]++
+			}
 		}
 	})
 	// can another report be issued after event rp?
@@ -357,7 +376,7 @@ func doneRule(c *Ctx, r *Report, fn *ssa.Function, goInstr ssa.Instruction, g *s
 			nFinal++
 			// must be on the edge taken when a channel the spawner closes is closed (select arm, or
 			// the not-ok edge of a receive / the end of a range over it), and be followed by no report
-			ch := g9ClosedEdge(rp.at.Block())
+			ch := chanName(h4ClosedEdgeChan(rp.at.Block()))
 			switch {
 			case ch == "" || !closed[ch]:
 				o.Bad("the final report (Done: true) is not on the arm of a channel that the spawner closes when the transfer ends")
@@ -374,44 +393,25 @@ func doneRule(c *Ctx, r *Report, fn *ssa.Function, goInstr ssa.Instruction, g *s
 			ch := ""
 			if ex, ok := okv.(*ssa.Extract); ok && ex.Index == 1 {
 				if rcv, ok := ex.Tuple.(*ssa.UnOp); ok && rcv.Op == token.ARROW && rcv.CommaOk {
-					ch = strings.TrimPrefix(pathOf(rcv.X), "&")
+					ch = chanName(rcv.X)
 				}
 			}
-			// after the report: a branch on ok whose closed side leaves without reporting again
+			// after the report made with the channel closed (ok false) no further report may be
+			// issued: decided by following the branch structure from the report under that
+			// assumption, whatever form the loop and its exit take (ip_h4.go)
 			leaves := false
-			eachInstr(cf, func(b *ssa.BasicBlock, _ int, in ssa.Instruction) {
-				ifi, isIf := in.(*ssa.If)
-				if !isIf || !instrReaches(rp.at, in) && rp.at.Block() != b {
-					return
+			if ch != "" {
+				events := map[ssa.Instruction]bool{}
+				for _, other := range reports {
+					events[other.at] = true
 				}
-				cond, truth := ifi.Cond, true
-				for {
-					if u, isNot := cond.(*ssa.UnOp); isNot && u.Op == token.NOT {
-						cond, truth = u.X, !truth
-						continue
-					}
-					break
-				}
-				if cond != okv {
-					return
-				}
-				// the channel is closed when ok is false: successor taken when cond (= ok) is false
-				t := b.Succs[1]
-				if !truth {
-					t = b.Succs[0]
-				}
-				if regionExits(t) {
-					clean := true
-					for _, other := range reports {
-						if t.Dominates(other.at.Block()) {
-							clean = false
-						}
-					}
-					if clean {
-						leaves = true
+				leaves = h4ReportAfterClosed(rp.at, okv, events) == nil
+				for _, other := range reports {
+					if other.at == rp.at && other.inner != rp.inner {
+						leaves = false // the same call issues several reports
 					}
 				}
-			})
+			}
 			switch {
 			case !neg || ch == "":
 				o.Bad("Done is not the negated comma-ok of a receive from the notification channel")
@@ -520,12 +520,14 @@ func sessionFieldRule(c *Ctx, r *Report, rule string) {
 			if !ok {
 				return
 			}
-			mc, ok := g.Call.Value.(*ssa.MakeClosure)
-			if !ok {
+			mc, _ := g.Call.Value.(*ssa.MakeClosure)
+			var cf *ssa.Function
+			if mc != nil {
+				cf = mc.Fn.(*ssa.Function)
+			} else if cf = c.h4GoTarget(g); cf == nil || pkgRel(cf) != pkg {
 				return
 			}
 			nGo++
-			cf := mc.Fn.(*ssa.Function)
 			var gfns []*ssa.Function
 			var collect func(f *ssa.Function)
 			collect = func(f *ssa.Function) {
@@ -540,9 +542,11 @@ func sessionFieldRule(c *Ctx, r *Report, rule string) {
 			for i := 0; i < len(gfns) && len(gfns) < 32; i++ {
 				for _, ci := range allCalls(gfns[i]) {
 					h := g9LocalFunc(ci.Common())
-					if h == nil || !c.inModule(h) || pkgRel(h) != pkg || len(c.g9Reports(h, 0)) == 0 {
+					if h == nil || !c.inModule(h) || pkgRel(h) != pkg {
 						continue
 					}
+					// (was: only helpers through which reports are issued; a getter that reads the session
+					// for the goroutine runs in the goroutine just the same)
 					dup := false
 					for _, g := range gfns {
 						if g == h {
@@ -604,11 +608,24 @@ func sessionFieldRule(c *Ctx, r *Report, rule string) {
 								}
 								walk(y.X, depth+1)
 							case *ssa.UnOp:
+								// a pointer loaded from a field of a struct built for the goroutine: what the
+								// spawner stored there (ip_h4.go)
+								if fa, ok := y.X.(*ssa.FieldAddr); ok && y.Op == token.MUL {
+									for _, src := range c.h4FieldSources(fa, g, cf, gfns) {
+										walk(src, depth+1)
+									}
+								}
 								walk(y.X, depth+1)
+							case *ssa.Parameter:
+								// a parameter of the goroutine's function or of a helper it reports through: the
+								// counter is what every call site passes (ip_h4.go)
+								for _, a := range h4ParamArgs(y, g, cf, gfns) {
+									walk(a, depth+1)
+								}
 							case *ssa.FreeVar:
 								found := false
 								for i, fv := range cf.FreeVars {
-									if fv == y && i < len(mc.Bindings) {
+									if mc != nil && fv == y && i < len(mc.Bindings) {
 										found = true
 										walk(mc.Bindings[i], depth+1)
 									}
